@@ -74,6 +74,12 @@ def run_config(cfg, res):
       for _ in range(3000 if cfg['tier'] == 'quick' else 40000):
         n = r.randint(5, 40)
         yield ''.join(r.choice(ALPHA + ['b', 'c', '..', '/../', '中', '_tagged', ';x=', '\u2025', '\uff0f', '\uff0e', '\u2024', ';t=\ud800']) for _ in range(n))
+      # names that look like the encoder's own output for tagged series (_tagged/<3 hex>/<3 hex>/...), with every count
+      # of leading underscores (an escaping scheme must escape its own escape)
+      for base in ('tagged.abc.def.x', 'tagged.0a1.b2c.cpu;like', 'tagged.abc.def.x.y', 'tagged.abc.def', 'tagged.ABC.def.x', 'tagged.abcd.ef.x', 'tagged'):
+        for k in range(0, 5):
+          yield '_' * k + base.split(';')[0]
+          yield '_' * k + base.split(';')[0] + '_'
       # long names: segments around the file systems' 255-byte component limit (with and without room for an
       # extension), each followed by neighbours that differ from it in exactly one character - at the ends, in the
       # middle and around the limit - including characters whose UTF-8 encodings share their leading or trailing bytes
